@@ -1670,12 +1670,21 @@ class TeX(object):
         """ Read a glue parameter from the stream """
         ParameterCommand.disable()
         sign = self.readOptionalSigns()
-        # internal/coerced glue
+        # internal glue
         for t in self:
             if t.nodeType == Macro.ELEMENT_NODE and \
-               isinstance(t, ParameterCommand):
+               isinstance(t, ParameterCommand) and \
+               isinstance(type(t).value, glue):
                 ParameterCommand.enable()
-                return glue(sign * glue(t))
+                value = type(t).value
+                stretch, shrink = value.stretch, value.shrink
+                if stretch is not None:
+                    stretch = sign * stretch
+                if shrink is not None:
+                    shrink = sign * shrink
+                return glue(sign * dimen(value), stretch, shrink)
+            # anything else (including dimen and count parameters) starts
+            # a dimen that may be followed by `plus' and `minus'
             self.pushToken(t)
             break
         dim = self.readDimen()
